@@ -121,7 +121,7 @@ var bases = []base{
 	{Name: "running", D1: "running", D2: "finished"},
 	{Name: "finished+other-running", D1: "finished", D2: "running"},
 	// three recorded runs of d1 (failed, finished, failed), request ids of every family
-	{Name: "3-runs/failed/ids-distinct-8", D1: "failed", D2: "finished", IDs: "distinct-8", Hist: []string{"failed", "finished"}},
+	{Name: "3-runs/failed/ids-distinct-8", D1: "failed", D2: "finished", IDs: "distinct-8", Hist: []string{"failed", "finished"}, Depth1Quick: true},
 	{Name: "3-runs/failed/ids-shared-8", D1: "failed", D2: "finished", IDs: "shared-8", Hist: []string{"failed", "finished"}},
 	{Name: "3-runs/failed/ids-nested", D1: "failed", D2: "finished", IDs: "nested", Hist: []string{"failed", "finished"}},
 	{Name: "3-runs/finished/ids-nested-rev", D1: "finished", D2: "failed", IDs: "nested-rev", Hist: []string{"failed", "failed"}, Depth1Quick: true},
